@@ -16,6 +16,7 @@
 #include <stdint.h>
 #include <sys/socket.h>
 #include <unistd.h>
+#include <sys/wait.h>
 
 /* ------------------------------------------------------------------ environment abstraction */
 #ifdef USE_KSIM
@@ -23,11 +24,28 @@
 static unsigned long env_clock(void) { return ksim_clock_ms; }
 static long env_blocking_polls(void) { return ksim_blocking_polls; }
 static long env_bad_fd_calls(void) { return ksim_calls_on_bad_fd; }
+static long env_closed_fd_calls(void) { return ksim_calls_on_closed_fd; }
 static int env_cloexec(int fd) { return ksim_fd_cloexec(fd); }
 static void env_reset(void) { ksim_reset(); ksim_rxcap = 32; ksim_dgcap = 4; ksim_sigpipe_ignored = 1; }
 static void env_set_block(jmp_buf *jb) { ksim_set_block_handler(jb); }
 static const char *ENVNAME = "ksim";
 #else
+#include <sched.h>
+#include <net/if.h>
+#include <sys/ioctl.h>
+/* the real-kernel replay runs in a network namespace of its own when the sandbox allows it: own loopback, own ephemeral ports and TIME_WAIT table,
+ * so that neither an earlier run nor a concurrent one can take a port away (returns 1 on success; without it the driver serialises the replays) */
+static int private_netns(void)
+{
+    struct ifreq ifr; int s, ok;
+    if (unshare(CLONE_NEWNET) < 0) return 0;
+    s = socket(AF_INET, SOCK_DGRAM, 0); if (s < 0) return 0;
+    memset(&ifr, 0, sizeof ifr); strcpy(ifr.ifr_name, "lo");
+    ok = ioctl(s, SIOCGIFFLAGS, &ifr) == 0; ifr.ifr_flags |= IFF_UP | IFF_RUNNING; ok = ok && ioctl(s, SIOCSIFFLAGS, &ifr) == 0;
+    close(s);
+    if (!ok) { fprintf(stderr, "private network namespace without a usable loopback\n"); exit(2); }
+    return 1;
+}
 static unsigned long vclock; static long blocking_polls; static jmp_buf *blk;
 int __real_poll(struct pollfd *, nfds_t, int);
 int __wrap_poll(struct pollfd *f, nfds_t n, int timeout)
@@ -42,6 +60,7 @@ int __wrap_poll(struct pollfd *f, nfds_t n, int timeout)
 static unsigned long env_clock(void) { return vclock; }
 static long env_blocking_polls(void) { return blocking_polls; }
 static long env_bad_fd_calls(void) { return 0; }
+static long env_closed_fd_calls(void) { return 0; }
 static int env_cloexec(int fd) { int f = fcntl(fd, F_GETFD); return f < 0 ? -1 : !!(f & FD_CLOEXEC); }
 static void env_reset(void) { vclock = 0; blocking_polls = 0; }
 static void env_set_block(jmp_buf *jb) { blk = jb; }
@@ -147,8 +166,11 @@ static void hist_begin(void)
 }
 static void hist_end(void)
 {
+    /* clean-up after the last judged step: the peer's stream sockets are closed first and abortively (SO_LINGER 0 -> RST), so that no connection of
+     * this history stays behind in TIME_WAIT: 10^5 histories would otherwise occupy the whole ephemeral port range of the machine for a minute */
+    { struct linger lg = {1, 0}; if (peer_conn >= 0) { setsockopt(peer_conn, SOL_SOCKET, SO_LINGER, &lg, sizeof lg); close(peer_conn); } if (peer_fill >= 0) { setsockopt(peer_fill, SOL_SOCKET, SO_LINGER, &lg, sizeof lg); close(peer_fill); } }
     p_socket_free(acc); p_socket_free(sut); sut = acc = NULL;
-    if (peer_listen >= 0) close(peer_listen); if (peer_conn >= 0) close(peer_conn); if (peer_dg >= 0) close(peer_dg); if (peer_fill >= 0) close(peer_fill);
+    if (peer_listen >= 0) close(peer_listen); if (peer_dg >= 0) close(peer_dg);
 }
 
 static const char *ec(PError *e)
@@ -186,13 +208,18 @@ static void check_getters(const Ref *r, const char *after)
     G(p_socket_is_closed(sut) == (r->closed ? TRUE : FALSE), "is_closed");
     if (r->closed) G(p_socket_get_fd(sut) == -1, "fd-after-close");
 #undef G
+    if (r->closed) {      /* the address getters of a closed socket: whatever they answer, they must not reach a descriptor the library has closed */
+        long c0 = env_closed_fd_calls(); PSocketAddress *a = p_socket_get_local_address(sut, NULL), *b = p_socket_get_remote_address(sut, NULL);
+        if (a) p_socket_address_free(a); if (b) p_socket_address_free(b);
+        if (env_closed_fd_calls() != c0) { snprintf(sg, sizeof sg, "closed/address-getter/system-call-on-closed-descriptor"); viol(sg, "after %s: p_socket_get_local_address / get_remote_address of the closed socket issued %ld system call(s) on the descriptor number the library has already closed", after, env_closed_fd_calls() - c0); }
+    }
 }
 
 /* executes op; fills outcome[]; updates ref */
 static void do_op(const Ref *pre, int op)
 {
     Ref post_ = *pre, *r = &post_;      /* r starts as the pre-state; the case bodies below update it exactly like ref_step (checked at the end) */
-    PError *e = NULL; jmp_buf jb; volatile int blocked = 0; unsigned long t0 = env_clock(); long p0 = env_blocking_polls(), b0 = env_bad_fd_calls(); char sg[96];
+    PError *e = NULL; jmp_buf jb; volatile int blocked = 0; unsigned long t0 = env_clock(); long p0 = env_blocking_polls(), b0 = env_bad_fd_calls(), c0 = env_closed_fd_calls(); char sg[96];
     const char *err = "-"; long res = 0; unsigned long dt; long dp;
     static char ebuf[32];
     outcome[0] = 0;
@@ -296,6 +323,8 @@ after:
         if (env_bad_fd_calls() != b0) { snprintf(sg, sizeof sg, "closed/%s/touched-descriptor", ON[op]); viol(sg, "%s on a closed socket issued %ld system call(s) on an invalid descriptor", ON[op], env_bad_fd_calls() - b0); }
     }
     p_error_free(e);
+    /* whatever the call: nothing may be done to a descriptor number the library has closed (in a real process the number may belong to another descriptor by now) */
+    if (env_closed_fd_calls() != c0) { snprintf(sg, sizeof sg, "closed/%s/system-call-on-closed-descriptor", ON[op]); viol(sg, "%s issued %ld system call(s) on the descriptor number the library has already closed", ON[op], env_closed_fd_calls() - c0); }
     if (!blocked) { Ref chk = *pre; ref_step(&chk, op); if (memcmp(&chk, r, sizeof chk)) { fprintf(stderr, "reference model inconsistency at op %s\n", ON[op]); exit(2); } check_getters(r, ON[op]); }
 }
 
@@ -329,8 +358,14 @@ static int run_history(const unsigned char *h, int n, FILE *tf, const char *expe
 int main(int argc, char **argv)
 {
     int depth, s, i; FILE *tf = NULL; long mismatches = 0, checked = 0;
+#ifndef USE_KSIM
+    if (argc > 1 && !strcmp(argv[1], "netns-probe")) { pid_t c = fork(); int st = 0; if (c == 0) _exit(private_netns() ? 0 : 1); waitpid(c, &st, 0); return WIFEXITED(st) && WEXITSTATUS(st) == 0 ? 0 : 1; }
+#endif
     if (argc < 5) return 2;
     hout_open(); p_libsys_init();
+#ifndef USE_KSIM
+    if (!getenv("VERIF_NO_NETNS")) hout_stat("private_network_namespace", private_netns());
+#endif
     KINDNAME = argv[2]; DGRAM = !strncmp(argv[2], "dgram", 5); FROMFD = strstr(argv[2], "-fd") != NULL; FAM = atoi(argv[3]);
     if (!strcmp(argv[1], "replay")) {
         unsigned char h[64]; int n = 0, eb; const char *p = argv[4];
